@@ -330,7 +330,7 @@ def tok_harness(ctx, name, *, perm=0, nx=3, pres=0, drop=0, ng=0, gpres=0, defs=
         else: slots.append('X%d' % i if (pres >> i) & 1 else '-')
     bounds = ('message 8=FIX.4.2|9=12|35=A| %s 49 56 34 52 %s 98 108 %s 10=ddd|%s; %d symbolic 9-byte token(s): tag from a menu of 11 (header/body/trailer tags, foreign tag, '
               'tag outside the field table, two tags == known tag mod 65536, repeat of 35%s), 2..6 symbolic value bytes (no SOH/NUL); checksum digits, byte sum and no_chksum flag symbolic; '
-              'FIX8_MAX_FLD_LENGTH scaled to %d') % (slots[0], slots[1], ' '.join(slots[2:]), ' with mandatory token #%d left out' % drop if drop else '', nslots,
+              'FIX8_MAX_FLD_LENGTH scaled to %d') % (slots[0], slots[1], ' '.join(slots[2:]), ' with mandatory token #%d left out' % drop if drop else (' with one of the six mandatory tokens left out (each in turn)' if 'DROPALL' in extra_defs else ''), nslots,
                                                    '; group slots: 372, 385, 383, 141, 5000; count 0..%d' % ng if ng else '', FLD)
     h = Harness(name, VERIF + '/harness/' + cfile, defines=d, unwind=14, unwindset=us_decode(ntok, maxcopy=mc), timeout=timeout, mem_gb=12, flags=['-I', VERIF + '/shims'], object_bits=object_bits or (16 if nslots > 1 else 13),
                 functions=FUN_DECODE + ([] if tokcut else ['FIX8::MessageBase::extract_element']), stubs=STUBS_DECODE + ([STUB_TOK] if tokcut else []) + ([] if ng else [STUB_NOGRP]),
